@@ -38,6 +38,8 @@ type c11Thread struct {
 	Fresh bool `json:",omitempty"`
 	// ValOnly: compare error and value only (the process text lists a map-ordered value)
 	ValOnly bool `json:",omitempty"`
+	// SeqOnly: too many instruction boundaries for schedule enumeration (a loop over a list): sequential replay and race pass only
+	SeqOnly bool `json:",omitempty"`
 }
 
 var c11Uniq int64
@@ -72,7 +74,7 @@ var c11Pool = []c11Thread{
 	// values handed out by built-ins, modified in place by the VM that received them
 	// (dir lists names in map order: these programs are compared by value only, and their values do not depend on the order; the readers come first
 	// so that the sequential replay sees them once before and once after the writers)
-	{Src: "x = dir([]); i = 0; n = 0; while i < x.len() { if x[i] == 'hacked' { n = n + 1 }; i = i + 1 }; [n, x.len()]", ValOnly: true}, {Src: "x = dir({}); i = 0; n = 0; while i < x.len() { if x[i] == 'hacked' { n = n + 1 }; i = i + 1 }; [n, x.len()]", ValOnly: true},
+	{Src: "x = dir([]); i = 0; n = 0; while i < x.len() { y = x[i]; if y == 'hacked' { n = n + 1 }; i = i + 1 }; [n, x.len()]", ValOnly: true, SeqOnly: true}, {Src: "x = dir({}); i = 0; n = 0; while i < x.len() { y = x[i]; if y == 'hacked' { n = n + 1 }; i = i + 1 }; [n, x.len()]", ValOnly: true, SeqOnly: true},
 	{Src: "x = dir([]); x[0] = 'hacked'; x[1] = 'hacked'; x.len()", ValOnly: true}, {Src: "x = dir({}); x.pop(); x.push('hacked'); x[0] = 'hacked'; x.len()", ValOnly: true}, {Src: "x = dir(&c); x[0] = 'hacked'; 1", ValOnly: true},
 	{Src: "x = [1,2].kh; y = [3].kh; [x(), y()]"},
 }
@@ -86,13 +88,17 @@ func c11Enumerate(tier string, seed int64, emit func(string, any)) {
 	emit("sched/sequential replay of the pool", c11Case{Kind: "golden"})
 	for i := 0; i < n; i++ {
 		for j := 0; j < n; j++ {
-			emit("sched/2 VMs", c11Case{Kind: "sched", Threads: []c11Thread{c11Pool[i], c11Pool[j]}, Bound: 1})
-			if thorough || (i+j)%5 == 0 {
-				emit("sched/2 VMs bound 2", c11Case{Kind: "sched", Threads: []c11Thread{c11Pool[i], c11Pool[j]}, Bound: 2})
-			}
 			reps := 5
 			if thorough {
 				reps = 8
+			}
+			if c11Pool[i].SeqOnly || c11Pool[j].SeqOnly {
+				emit("race/2 VMs", c11Case{Kind: "race", Threads: []c11Thread{c11Pool[i], c11Pool[j]}, Reps: reps})
+				continue
+			}
+			emit("sched/2 VMs", c11Case{Kind: "sched", Threads: []c11Thread{c11Pool[i], c11Pool[j]}, Bound: 1})
+			if thorough || (i+j)%5 == 0 {
+				emit("sched/2 VMs bound 2", c11Case{Kind: "sched", Threads: []c11Thread{c11Pool[i], c11Pool[j]}, Bound: 2})
 			}
 			emit("race/2 VMs", c11Case{Kind: "race", Threads: []c11Thread{c11Pool[i], c11Pool[j]}, Reps: reps})
 		}
